@@ -99,6 +99,7 @@ type GhostDecl struct {
 }
 
 type FactDecl struct {
+	Re     *ReLemma // regular-expression lemma (decided on the pattern read from the program)
 	Kind   string // "axiom" or "lemma"
 	Clause *Clause
 	File   *SpecFile
@@ -121,7 +122,7 @@ type Specs struct {
 }
 
 var clauseKeywords = map[string]bool{
-	"package": true, "import": true, "pure": true, "ghost": true, "axiom": true, "lemma": true,
+	"package": true, "import": true, "pure": true, "ghost": true, "axiom": true, "lemma": true, "relemma": true,
 	"func": true, "iface": true, "extern": true, "callback": true, "funcfield": true,
 	"requires": true, "ensures": true, "modifies": true, "loop": true, "call": true, "let": true,
 	"trusted": true, "inline": true, "opt": true, "serves": true, "exit": true, "entry": true, "callee": true,
@@ -251,6 +252,18 @@ func (sp *Specs) loadFile(path, pkgPath string) error {
 				}
 				sp.Ghosts[name] = &GhostDecl{Name: name, Params: params, Result: result, File: sf, Local: local}
 			}
+		case "relemma":
+			lab, props, r2 := parseLabel(rest)
+			rl, src, err := parseReLemma(r2)
+			if err != nil {
+				return fail(err)
+			}
+			e, err := ParseExpr(src)
+			if err != nil {
+				return fail(err)
+			}
+			c := &Clause{AtReturn: -1, Label: lab, Props: props, Src: "relemma " + r2 + "  (" + src + ")", E: e, Where: where}
+			sp.Facts = append(sp.Facts, &FactDecl{Kind: "lemma", Clause: c, File: sf, Re: rl})
 		case "axiom", "lemma":
 			c, err := mkClause(rest)
 			if err != nil {
